@@ -670,6 +670,14 @@ pub const META_C09: Meta = Meta {
     assumptions: &["the harness inflater implements RFC 1951/1952 correctly (unit-tested against flate2 at all levels; cross-checked on every case)"],
 };
 
+pub fn check_stream_pub(c: &SCase, acc: &mut Acc, gz: bool) -> Check {
+    check_stream(c, acc, gz)
+}
+
+pub fn check_trace_pub(c: &SCase, acc: &mut Acc, c20: bool) -> Check {
+    check_trace(c, acc, c20)
+}
+
 fn check_stream(c: &SCase, acc: &mut Acc, gz: bool) -> Check {
     let run = execute(c);
     if let Some(f) = internal(&run) {
